@@ -803,6 +803,37 @@ pub fn non_subgroup_points<G: RG>(start: u64, n: usize) -> Vec<Vec<u8>> {
     out
 }
 
+/// A curve point OUTSIDE the subgroup whose compressed encoding shares its first half
+/// (`keep_prefix`) or its last half with the given valid encoding: what a validation memo keyed
+/// on part of the bytes would confuse with the valid point.
+pub fn non_subgroup_sibling<G: RG>(valid: &[u8], keep_prefix: bool) -> Option<Vec<u8>> {
+    if valid.len() != G::LEN {
+        return None;
+    }
+    let half = G::LEN / 2;
+    for ctr in 1u32..4096 {
+        let mut b = valid.to_vec();
+        let c = ctr.to_be_bytes();
+        if keep_prefix {
+            // change the last four bytes
+            let n = b.len();
+            for i in 0..4 {
+                b[n - 4 + i] ^= c[i];
+            }
+        } else {
+            // change bytes 2..6 (flags and the top value bits stay, so x stays below p)
+            for i in 0..4 {
+                b[2 + i] ^= c[i];
+            }
+            debug_assert!(6 <= half);
+        }
+        if G::classify(&b) == PointClass::NotInSubgroup {
+            return Some(b);
+        }
+    }
+    None
+}
+
 /// Compressed encodings whose x-coordinate has no point on the curve.
 pub fn off_curve_x<G: RG>(start: u64, n: usize) -> Vec<Vec<u8>> {
     let mut out = Vec::new();
